@@ -118,6 +118,19 @@ def iterSpan (eoi : Nat × Nat) (a b : IterCursor) : Nat × Nat :=
     | some s => (s, match b.lastEnd with | some e => e | none => eoi.2)
     | none => (eoi.2, eoi.2)
 
+/-- schedule replay for `IterInput` that also asks, after every call, for the span from the cursor the call started at
+    and from the very first cursor to the cursor the call produced (`span_since` after a match / at a failure) -/
+def replayIterSpans (eoi : Nat × Nat) (c0 : IterCursor) :
+    List Nat → List IterCursor → List (Nat × Option Nat × (Nat × Nat) × (Nat × Nat) × (Nat × Nat))
+  | [], _ => []
+  | k :: ks, cus =>
+    match cus[k % cus.length]? with
+    | none => []
+    | some cu =>
+      let r := iterNext () cu
+      (cu.idx, r.1, iterSpan eoi cu r.2.2, iterSpan eoi c0 r.2.2, iterSpan eoi r.2.2 r.2.2) ::
+        replayIterSpans eoi c0 ks (cus ++ [r.2.2])
+
 /-! ### `IoInput`: a seekable reader that remembers where it last read -/
 
 structure IoCache where
